@@ -661,3 +661,128 @@ Proof.
       simpl. apply La. apply Hh. exact Hin.
     + apply La. exact Hr.
 Qed.
+
+(* ------------------------------------------------------------------ one app over time *)
+
+Lemma replay_app : forall h1 h2 r, replay r (h1 ++ h2) = replay (replay r h1) h2.
+Proof. induction h1 as [|[l h] tl IH]; intros h2 r; simpl; [reflexivity|apply IH]. Qed.
+
+(* lookups never change what later lookups see *)
+Theorem lookup_pure r mro : snd (lookup r mro) = r.
+Proof. reflexivity. Qed.
+
+(* After ANY interleaving of add_error_handler calls and lookups on one app, every lookup
+   returns the latest handler of the nearest registered class among the registrations made
+   up to that moment: a handler registered later for a nearer ancestor (or a re-registration
+   of the same ancestor, the defaults included) wins from then on. *)
+Theorem session_is_nearest : forall ops hist,
+  run_ops (replay init_registry hist) ops = spec_ops hist ops.
+Proof.
+  induction ops as [|o tl IH]; intro hist; simpl; [reflexivity|].
+  destruct o as [[l h]|mro].
+  - rewrite <- IH, replay_app. reflexivity.
+  - simpl. rewrite handler_is_nearest, IH. reflexivity.
+Qed.
+
+Lemma nearest_skip a h : forall pre c post,
+  (forall c', In c' pre -> latest a c' = None \/ latest a c' = Some h) ->
+  latest a c = Some h -> nearest a (pre ++ c :: post) = Some h.
+Proof.
+  induction pre as [|p pre' IH]; intros c post Hpre Hc; cbn [app nearest].
+  - rewrite Hc. reflexivity.
+  - destruct (Hpre p (or_introl eq_refl)) as [-> | ->]; [|reflexivity].
+    apply IH; [|exact Hc]. intros c' Hin. apply Hpre. right. exact Hin.
+Qed.
+
+Lemma assignments_snoc hist r : assignments (hist ++ [r]) = assignments hist ++ assignments_of (fst r) (snd r).
+Proof.
+  induction hist as [|[l0 h0] t IHt]; simpl.
+  - destruct r. simpl. rewrite app_nil_r. reflexivity.
+  - rewrite IHt, app_assoc. reflexivity.
+Qed.
+
+(* the typical instance: T resolved through ancestor A; then a handler for a nearer ancestor
+   B (or A again) is added; T is then resolved by the new handler *)
+Theorem later_registration_wins hist mro c h pre post :
+  removelast mro = pre ++ c :: post ->
+  (forall c', In c' pre -> latest (init_assignments ++ assignments hist) c' = None) ->
+  run_ops (replay init_registry hist) [OLookup mro; OReg ([(c, true)], h); OLookup mro]
+  = [spec_handler hist mro; Some h].
+Proof.
+  intros Hm Hpre. rewrite session_is_nearest. cbn [spec_ops]. f_equal. f_equal.
+  unfold spec_handler. rewrite Hm.
+  assert (Ha : forall c', latest (init_assignments ++ assignments (hist ++ [([(c, true)], h)])) c'
+               = if Nat.eqb c' c then Some h else latest (init_assignments ++ assignments hist) c').
+  { intro c'. rewrite assignments_snoc. cbn [fst snd assignments_of].
+    rewrite app_assoc, latest_app. simpl. destruct (Nat.eqb c' c); reflexivity. }
+  apply nearest_skip.
+  - intros c' Hin. rewrite Ha. destruct (Nat.eqb c' c); [right; reflexivity|left; apply Hpre; exact Hin].
+  - rewrite Ha, Nat.eqb_refl. reflexivity.
+Qed.
+
+(* ------------------------------------------------------------------ the substring fallbacks *)
+
+Lemma contains_unfold x s p :
+  contains (x :: s) p = startswith (x :: s) p || contains s p.
+Proof. reflexivity. Qed.
+
+Theorem contains_spec : forall s p, contains s p = true <-> exists a b, s = a ++ p ++ b.
+Proof.
+  induction s as [|x s IH]; intro p.
+  - destruct p as [|y p]; simpl.
+    + split; [intros _; exists [], []; reflexivity | reflexivity].
+    + split; [discriminate|]. intros (a & b & H). destruct a; discriminate.
+  - rewrite contains_unfold, orb_true_iff, startswith_app, IH. split.
+    + intros [[r Hr] | (a & b & ->)]; [exists [], r; exact Hr | exists (x :: a), b; reflexivity].
+    + intros (a & b & H). destruct a as [|y a].
+      * left. exists b. exact H.
+      * right. injection H as _ ->. eauto.
+Qed.
+
+(* the '+json' / '+xml' fallback looks at the WHOLE lower-cased Accept header: a vendor type
+   anywhere in a list of ranges (before or after other types, parameters, q-values) counts *)
+Theorem fallback_json n a b :
+  n_preferred n = None -> lower (n_accept n) = a ++ s_plus_json ++ b ->
+  final_preferred n = Some MEDIA_JSON.
+Proof.
+  intros Hp Ha. unfold final_preferred. rewrite Hp.
+  replace (contains (lower (n_accept n)) s_plus_json) with true; [reflexivity|].
+  symmetry. apply contains_spec. eauto.
+Qed.
+
+Theorem fallback_xml n a b :
+  n_preferred n = None -> contains (lower (n_accept n)) s_plus_json = false ->
+  lower (n_accept n) = a ++ s_plus_xml ++ b ->
+  final_preferred n = Some MEDIA_XML.
+Proof.
+  intros Hp Hj Ha. unfold final_preferred. rewrite Hp, Hj.
+  replace (contains (lower (n_accept n)) s_plus_xml) with true; [reflexivity|].
+  symmetry. apply contains_spec. eauto.
+Qed.
+
+(* ------------------------------------------------------------------ an error's own headers *)
+
+(* built without headers=, each header-bearing error carries exactly its own header *)
+Theorem ctor_headers_own :
+  (forall a, ctor_headers (CMethodNotAllowed a) None = Some [(s_Allow, join_comma a)]) /\
+  (forall c cs, ctor_headers (CUnauthorized (c :: cs)) None
+                = Some [(s_WWW_Authenticate, join_comma (c :: cs))]) /\
+  ctor_headers (CUnauthorized []) None = None /\
+  (forall v, ctor_headers (CRetryAfter (Some v)) None = Some [(s_Retry_After, v)]) /\
+  ctor_headers (CRetryAfter None) None = None /\
+  (forall n, ctor_headers (CRange n) None = Some [(s_Content_Range, s_bytes_star ++ n)]) /\
+  ctor_headers CPlain None = None.
+Proof. repeat split. Qed.
+
+(* ... and the response composed for it from a response without headers carries that header,
+   the negotiated content type and Vary, and nothing else *)
+Theorem error_response_headers_exact n c e r :
+  r_headers r = [] -> e_headers e = None -> n_preferred n = Some MEDIA_JSON ->
+  r_headers (compose_error n r (with_ctor c e)) =
+  set_headers [] (load_headers (ctor_headers c None))
+  ++ [(s_content_type, MEDIA_JSON); (s_vary, s_Accept)].
+Proof.
+  intros Hr He Hp. destruct r as [st hs tx da me]. simpl in Hr. subst hs.
+  unfold compose_error, with_ctor, serialize_error. cbn [e_headers e_status]. rewrite He, Hp.
+  destruct c as [a|[|c0 cs]|[v|]|nn|]; reflexivity.
+Qed.
